@@ -143,6 +143,79 @@ theorem C08_roundtrip (C : Crypto) (hC : C.WF) (K : Bytes) (sendChunks recvChunk
   · rw [i1, i2, ← hs2, Spec.recEnc_length]
   · rw [p1, p2, ← hs2]
 
+/-- **round trip from any pair of equal states** (the induction step "equal before ⇒ recovered and equal
+    after", usable at any point of a connection, with no reference to how the halves were made): for
+    every encrypter half `e0` and decrypter half `d0` holding the same key, position and previous byte,
+    with the invariant (`key.length = 20`, `index < 20`) — any 20-byte key, not only an HMAC output, every stream and every partition
+    of it into calls on the sender: the sender does not panic and emits the recurrence from its current
+    position; for every (independent) partition of that ciphertext into calls on the receiver, the
+    receiver recovers the sender's bytes exactly, and the two halves end equal again with the
+    invariant kept — so the theorem applies again to whatever is sent next -/
+theorem C08_roundtrip_from_equal_states (e0 d0 : Half) (hlen : e0.key.length = 20) (hidx : e0.index < 20)
+    (hk : d0.key = e0.key) (hx : d0.index = e0.index) (hp : d0.prev = e0.prev)
+    (sendChunks : List Bytes) :
+    ∃ e', runChunks (Half.encrypt .tbc) e0 sendChunks =
+        .ok (e', Spec.recEnc e0.key e0.index e0.prev sendChunks.flatten) ∧
+      e'.key = e0.key ∧ e'.key.length = 20 ∧ e'.index < 20 ∧
+      ∀ recvChunks : List Bytes,
+        recvChunks.flatten = Spec.recEnc e0.key e0.index e0.prev sendChunks.flatten →
+        ∃ d', runChunks (Half.decrypt .tbc) d0 recvChunks = .ok (d', sendChunks.flatten) ∧
+          d'.key = e'.key ∧ d'.index = e'.index ∧ d'.prev = e'.prev ∧ d' = e' := by
+  have he : Exp.tbc.encMod = 20 := by decide
+  have hd : Exp.tbc.decMod = 20 := by decide
+  have hi : e0.Inv 20 := ⟨by decide, by decide, by rw [hlen]; exact Nat.le_refl _, hidx⟩
+  obtain ⟨e', d', r1, r2, inv1, k1, k2, i2, p2⟩ :=
+    roundtrip_from_equal 20 e0 d0 hi hlen.symm hk hx hp sendChunks.flatten
+  refine ⟨e', ?_, k1, by rw [k1]; exact hlen, inv1.2.2.2, ?_⟩
+  · rw [(C08_chunking _ _).1]
+    simp only [Half.encrypt, he, r1]
+  · intro recvChunks hpart
+    refine ⟨d', ?_, k2, i2, p2, ?_⟩
+    · rw [(C08_chunking _ _).2, hpart]
+      simp only [Half.decrypt, hd, r2]
+    · obtain ⟨a, b, c⟩ := d'
+      obtain ⟨a', b', c'⟩ := e'
+      simp only at k2 i2 p2
+      rw [k2, i2, p2]
+
+/-- the same in the form of `C08_roundtrip` (the sender's result as a hypothesis) -/
+theorem C08_roundtrip_from_equal_states' (e0 d0 : Half) (hlen : e0.key.length = 20) (hidx : e0.index < 20)
+    (hk : d0.key = e0.key) (hx : d0.index = e0.index) (hp : d0.prev = e0.prev)
+    (sendChunks recvChunks : List Bytes) (cipher : Bytes) (e' : Half)
+    (hsend : runChunks (Half.encrypt .tbc) e0 sendChunks = .ok (e', cipher))
+    (hpart : recvChunks.flatten = cipher) :
+    ∃ d', runChunks (Half.decrypt .tbc) d0 recvChunks = .ok (d', sendChunks.flatten) ∧
+      d'.key = e'.key ∧ d'.index = e'.index ∧ d'.prev = e'.prev ∧
+      e'.key.length = 20 ∧ e'.index < 20 := by
+  obtain ⟨e1, h1, _, hl, hi, hrecv⟩ :=
+    C08_roundtrip_from_equal_states e0 d0 hlen hidx hk hx hp sendChunks
+  rw [h1] at hsend
+  injection hsend with hsend
+  injection hsend with hs1 hs2
+  subst hs1
+  obtain ⟨d', g1, g2, g3, g4, _⟩ := hrecv recvChunks (hpart.trans hs2.symm)
+  exact ⟨d', g1, g2, g3, g4, hl, hi⟩
+
+/-- non-vacuity of `C08_roundtrip_from_equal_states`: a mid-connection state (position 18, previous byte
+    0x5a) three bytes before the key wraps around; five bytes sent in three calls (one empty) -/
+example :
+    let K := (List.range 20).map UInt8.ofNat
+    ∃ e', runChunks (Half.encrypt .tbc) ⟨K, 18, 0x5a⟩ [[1, 2], [], [3, 4, 5]] =
+        .ok (e', Spec.recEnc K 18 0x5a [1, 2, 3, 4, 5]) ∧ e'.key.length = 20 ∧ e'.index < 20 :=
+  have ⟨e', h, _, hl, hi, _⟩ := C08_roundtrip_from_equal_states ⟨(List.range 20).map UInt8.ofNat, 18, 0x5a⟩
+    ⟨(List.range 20).map UInt8.ofNat, 18, 0x5a⟩ (by decide) (by decide) rfl rfl rfl [[1, 2], [], [3, 4, 5]]
+  ⟨e', h, hl, hi⟩
+/-- … and by evaluation: the position has wrapped to 3, the receiver (calls of 4 and 1 bytes) is in the same state -/
+example :
+    (let K := (List.range 20).map UInt8.ofNat
+     match runChunks (Half.encrypt .tbc) ⟨K, 18, 0x5a⟩ [[1, 2], [], [3, 4, 5]] with
+     | .panic _ => false
+     | .ok (e', c) =>
+       match runChunks (Half.decrypt .tbc) ⟨K, 18, 0x5a⟩ [c.take 4, c.drop 4] with
+       | .panic _ => false
+       | .ok (d', p) => d' == e' && p == [1, 2, 3, 4, 5] && e'.index == 3 && c != p) = true := by
+  decide
+
 /-! non-vacuity: the hypotheses are met by concrete, non-trivial data. `Crypto.real` (executable
     SHA-1/HMAC) derives a 20-byte key from a 40-byte session key, and a chunked stream longer than
     the key is encrypted and decrypted. (Tests, evaluated by the kernel.) -/
@@ -159,3 +232,6 @@ example :
   decide +kernel
 
 end WowSrp
+
+#print axioms WowSrp.C08_roundtrip_from_equal_states
+#print axioms WowSrp.C08_roundtrip_from_equal_states'
